@@ -314,6 +314,7 @@ func check(id, tier string) int {
 		tail string
 	}
 	var deaths []death
+	isolatedWorkers := 0
 	var mu sync.Mutex
 	var wg sync.WaitGroup
 	for k := 0; k < nw; k++ {
@@ -325,13 +326,46 @@ func check(id, tier string) int {
 			t0 := time.Now()
 			merged := &workerResult{Faults: map[string]int{}, Probes: map[string]int{}, Extra: map[string]int{}}
 			first := true
-			for attempt := 0; attempt < 20; attempt++ {
+			isolated := false
+			for attempt := 0; attempt < 20 || isolated; attempt++ {
+				mr := maxRuns
+				if isolated {
+					mr = 1 // one process per run: package-level state of the code under test cannot leak between simulated worlds
+				}
+				minim := 250
+				if isolated {
+					minim = 0 // the minimiser re-runs worlds in the same process
+				}
 				job := map[string]any{"engine": p.Engine, "property": id, "tier": tier, "baseSeed": baseSeed, "offset": offset, "stride": nw,
-					"maxRuns": maxRuns, "wallMs": remaining, "replayDir": replayDir, "minimize": 250, "mode": p.Mode}
+					"maxRuns": mr, "wallMs": remaining, "replayDir": replayDir, "minimize": minim, "mode": p.Mode, "isolated": isolated}
 				res, crashed, tail, lastIdx := runWorker(simBin, job, dir, k, "2")
 				if !crashed {
 					mergeInto(merged, res, first)
-					break
+					first = false
+					if !isolated {
+						break
+					}
+					offset += nw
+					remaining = wall - time.Since(t0).Milliseconds()
+					if remaining <= 500 {
+						break
+					}
+					continue
+				}
+				if !isolated && strings.Contains(tail, "from outside bubble") && lastIdx >= 0 {
+					// A channel or timer created in one simulated world was used in a later one: the code
+					// under test keeps such objects in package-level state. Not a verdict and not a harness
+					// fault: go on with one process per run, starting again at the run that died.
+					isolated = true
+					mu.Lock()
+					isolatedWorkers++
+					mu.Unlock()
+					offset = lastIdx
+					remaining = wall - time.Since(t0).Milliseconds()
+					if remaining <= 500 {
+						break
+					}
+					continue
 				}
 				// The worker died: attribute the death to the run it had started and go on after it.
 				mu.Lock()
@@ -345,7 +379,9 @@ func check(id, tier string) int {
 				if remaining <= 1000 {
 					break
 				}
-				first = false
+				if !isolated {
+					first = false
+				}
 			}
 			results[k] = merged
 		}(k)
@@ -518,6 +554,7 @@ func check(id, tier string) int {
 	for k, v := range total.Extra {
 		cov[k] = v
 	}
+	cov["workers_switched_to_one_process_per_run"] = isolatedWorkers
 	if p.Mode == "with-realkill" {
 		notes := total.Fidelity
 		if notes == nil {
